@@ -122,7 +122,7 @@ def close(a, b, tol=1e-9):
 
 # ----------------------------------------------------------------------------- generation
 
-PALETTES = ("ties", "distinct", "float", "neg", "huge", "hard", "bigbase", "bin")
+PALETTES = ("ties", "distinct", "float", "neg", "huge", "hard", "bigbase", "bin", "int62")
 
 
 def draw_cost(rng, palette, hard_value=10000):
@@ -138,6 +138,9 @@ def draw_cost(rng, palette, hard_value=10000):
         return rng.choice([0, 1, 2 ** 31 + rng.randint(0, 50), 2 ** 33 + rng.randint(0, 5), 7])
     if palette == "hard":
         return rng.choice([0, 0, 0, hard_value, rng.randint(1, 5)])
+    if palette == "int62":
+        # integers that fit a signed 64-bit word while sums of two or three of them do not
+        return rng.choice([2 ** 62 + rng.randint(0, 5), 2 ** 62 - rng.randint(0, 5), rng.randint(0, 5), 2 ** 61 + rng.randint(0, 5)])
     if palette == "bin":
         return rng.choice([0, 0, 1, 2])  # many exact gain ties
     if palette == "bigbase":
